@@ -2,6 +2,7 @@
 //! usage: rfverif <property> --tier quick|thorough --seed N --out DIR
 #![feature(rustc_private)]
 extern crate rustc_lexer;
+mod c09;
 mod c12;
 mod corpus;
 mod gen;
@@ -31,6 +32,7 @@ fn main() {
         i += 1;
     }
     let code = match prop.as_str() {
+        "c09" => c09::run(&tier, seed, &out),
         "c12" => c12::run(&tier, seed, &out),
         "probe" => probe(&out),
         "sweep" => sweep::run(&args.get(2).cloned().unwrap_or_default(), seed, std::env::var("LIMIT").ok().and_then(|s| s.parse().ok()).unwrap_or(0), std::env::var("TIMEOUT_S").ok().and_then(|s| s.parse().ok()).unwrap_or(20)),
